@@ -343,15 +343,15 @@ T_CALLS = {
     'user_prj': lambda: (lambda p=_tgc.Projection(200000, 4000000, 0.9999, 4, -178): _tgv.grid2geo(12, 250000.0, 1300000.0, 'north', _tgc.wgs84, p)),
     'roundtrip': lambda: (lambda: _tgv.geo2grid(*_tgv.grid2geo(55, 300000.0, 6200000.0)[:2])),
 }
-_tg, _te = _thr.make(T_CALLS, ['geodepy/convert.py'], 'convert:grid2geo:threads', quick=['utm_grs80', 'isg_ans', 'utm_intl_north', 'user_prj'],
-                     triple=('utm_grs80', 'isg_ans', 'roundtrip'), files_thorough=['geodepy/constants.py'])
+_tg, _te = _thr.make(T_CALLS, ['geodepy/convert.py'], 'convert:grid2geo:threads', quick=['utm_grs80', 'isg_ans', 'user_prj'],
+                     triple=('utm_grs80', 'isg_ans', 'roundtrip'), files_thorough=['geodepy/constants.py'], parts=4)
 
 
 SUBCHECKS = [
     Sub('geo_roundtrip', gen_geo, ev_geo, chunk=16, floor=1000, envs=24),
     Sub('grid_lattice', gen_grid, ev_grid, chunk=8, floor=1000, envs=24),
     Sub('standalone', gen_sa, ev_sa, chunk=8, floor=500, envs=1),
-    Sub('threads', _tg, _te, chunk=1, floor=3, poison=False),
+    Sub('threads', _tg, _te, chunk=1, floor=3, poison=False, fresh=True),
 ]
 
 
